@@ -118,7 +118,7 @@ def run(ctx):
             continue
         if len(got) != len(want) or any(abs(a - b) > 1e-9 for a, b in zip(got, want)):
             ctx.mismatch("scores changed under a presentation-only transformation (%s)" % kind, case, impl=got, spec=want, model=(ans["ok"] if ans else None))
-        if ctx.elapsed() > (100 if q else 900):
+        if ctx.elapsed() > (400 if q else 1800):
             break
     return ctx.finish("proof", "C07_val_perm, C07_val_dup, C07_monotone, C07_units_perm, C07_symmetric*, C07_batch_size: invariances of the modelled kernel/neighbor "
                       "pipeline for all sizes; this run performed the corresponding metamorphic runs on the implementation, each base run also compared with the model.", RULE)
